@@ -16,7 +16,7 @@ def load_corpus(prop):
 
 
 def explore(prop, scripts, judge=None, signature=None, nontrivial=None, variant="plain",
-            rule="", max_report=4, sample_n=3, extra=None, model_first=False):
+            rule="", max_report=4, sample_n=3, extra=None, model_first=False, inspect=None):
     """Run `scripts` on harness and model, compare, shrink and classify disagreements.
 
     judge(pair, script, impl_lines, model_lines) -> (failing_input_found: bool, text)
@@ -41,6 +41,19 @@ def explore(prop, scripts, judge=None, signature=None, nontrivial=None, variant=
         violations.append((desc, {"kind": "correspondence", "script": small, "impl": ra[0], "model": rb[0],
                                   "correspondence": prop + "/" + (small[-1].split()[0] if small else "")},
                            failing))
+    if inspect:
+        # inspect(script, impl_lines) -> [(description, line index)]: the property evaluated directly on the
+        # implementation's own answers (independent of the model); every hit is a failing input
+        nrep = 0
+        for s, r in zip(allscripts, a):
+            if nrep >= max_report:
+                break
+            if r and r[0] == "<skipped>":
+                continue
+            for (what, k) in inspect(s, r)[:1]:
+                nrep += 1
+                violations.append((what, {"kind": "correspondence", "script": s[:k + 1], "impl": r[:k + 1],
+                                          "model": [], "correspondence": prop + "/direct"}, True))
     sigs = set()
     dist = {}
     for s, r in zip(allscripts, a):
